@@ -128,13 +128,14 @@ func (x *XRefParser) FindXRef() (int64, error) {
 
 	// Parse the offset after startxref
 	afterStartXRef := content[idx+len("startxref"):]
-	lines := strings.Split(afterStartXRef, "\n")
-	if len(lines) < 2 {
+	// Lines may end in LF, CR LF or CR alone (ISO 32000-1 7.2.3)
+	lines := strings.FieldsFunc(afterStartXRef, func(r rune) bool { return r == '\n' || r == '\r' })
+	if len(lines) < 1 {
 		return 0, fmt.Errorf("invalid startxref format")
 	}
 
 	// The offset should be on the next line
-	offsetStr := strings.TrimSpace(lines[1])
+	offsetStr := strings.TrimSpace(lines[0])
 	offset, err := strconv.ParseInt(offsetStr, 10, 64)
 	if err != nil {
 		return 0, fmt.Errorf("invalid xref offset: %w", err)
@@ -173,11 +174,42 @@ func (x *XRefParser) ParseXRef(offset int64) (*XRefTable, error) {
 	return x.parseTraditionalXRef()
 }
 
+// scanPDFLines is a bufio.SplitFunc like bufio.ScanLines that accepts all
+// three PDF end-of-line markers: LF, CR LF and CR alone (ISO 32000-1 7.2.3).
+func scanPDFLines(data []byte, atEOF bool) (advance int, token []byte, err error) {
+	if atEOF && len(data) == 0 {
+		return 0, nil, nil
+	}
+	for i, b := range data {
+		switch b {
+		case '\n':
+			return i + 1, data[:i], nil
+		case '\r':
+			if i+1 < len(data) {
+				if data[i+1] == '\n' {
+					return i + 2, data[:i], nil
+				}
+				return i + 1, data[:i], nil
+			}
+			if atEOF {
+				return i + 1, data[:i], nil
+			}
+			// need one more byte to tell CR from CR LF
+			return 0, nil, nil
+		}
+	}
+	if atEOF {
+		return len(data), data, nil
+	}
+	return 0, nil, nil
+}
+
 // isXRefStream checks if the xref at the current position is a stream (PDF 1.5+)
 // rather than a traditional table. Traditional tables start with "xref", while
 // streams start with an object definition like "5 0 obj".
 func (x *XRefParser) isXRefStream() (bool, error) {
 	scanner := bufio.NewScanner(x.reader)
+	scanner.Split(scanPDFLines)
 	if !scanner.Scan() {
 		return false, fmt.Errorf("failed to read first line")
 	}
@@ -207,6 +239,7 @@ func (x *XRefParser) isXRefStream() (bool, error) {
 // The format is: "xref\n<subsections>\ntrailer\n<dict>\nstartxref\n<offset>\n%%EOF"
 func (x *XRefParser) parseTraditionalXRef() (*XRefTable, error) {
 	scanner := bufio.NewScanner(x.reader)
+	scanner.Split(scanPDFLines)
 
 	// Read "xref" keyword
 	if !scanner.Scan() {
